@@ -19,8 +19,6 @@ import TbotVerif.Props.ChanCase
 namespace C06
 open Chan Spec C03
 
-/-- kept only until `harness/c06.py` lists the real theorems in `THEOREMS` (it still audits this
-    name); remove together with that edit -/
 
 /-- the fields of the observation record in terms of the operation's run from the cut state -/
 theorem obsOp_fields (op : Op) (r : RunSt) :
